@@ -171,6 +171,16 @@ class CHECK(Check):
             if cl in ('none', 'gt_latest', 'eq_latest') and thr != thrs[0]:
                 continue
             out.append(('ok', cl, thr, pl, window, ng, side, lim, None))
+        # boundary windows: no context rows at all (0) and more than any table holds (5)
+        for (cl, _), (pl, _), window, ng in itertools.product(CONDS, PARTS, (0, 5), (0, 1)):
+            if (pl != 'none' and ng == 0) or pl == 'two':
+                continue
+            out.append(('ok', cl, thrs[0], pl, window, ng, 'right', None, None))
+        # the statement planned a second time by the same QueryPlanner object: the second plan is the one judged
+        for (cl, _), (pl, _), ng in itertools.product(CONDS, PARTS, (0, 1, 2)):
+            if (pl != 'none' and ng == 0) or (pl == 'two' and ng != 2):
+                continue
+            out.append(('ok_reuse', cl, thrs[0], pl, 2, ng, 'right', None, None))
         # the same conjuncts arranged as other AND trees (order, nesting, parentheses)
         for (cl, _), (pl, _), (layout, _), ng in itertools.product(CONDS, PARTS, LAYOUTS, (1, 2)):
             if (pl == 'two' and ng != 2) or build(cl, thrs[0], pl, 2, ng, 'right', None, None, layout) is None:
@@ -294,7 +304,13 @@ class CHECK(Check):
                     user_cond = n
         sig = f'{cl}|groups={ng}'
         try:
-            plan = plan_query(out.value, **predq.ts_catalog(window, ng))
+            if kind == 'ok_reuse':
+                from mindsdb_sql.planner.query_planner import QueryPlanner
+                planner = QueryPlanner(**predq.ts_catalog(window, ng))
+                planner.from_query(parsing.outcome(sql, 'mindsdb').value)
+                plan = planner.from_query(out.value)
+            else:
+                plan = plan_query(out.value, **predq.ts_catalog(window, ng))
         except PlanningException as e:
             if kind == 'rejected':
                 res.count('rejected_as_required')
@@ -367,7 +383,7 @@ class CHECK(Check):
     def coverage(self, agg):
         return {'exhaustive': True, 'table_contents': len(self.dbs), 'conditions': [c[0] for c in CONDS], 'partition_filters': [p[0] for p in PARTS],
                 'rejected_shapes': [r[0] for r in REJECTED],
-                'rule': 'full product condition x threshold x partition filter x window {1,2} x group columns {0,1,2} x model side x LIMIT, + 9 arrangements of the WHERE conjuncts as AND trees, + rejected shapes (also inside a data sub-select); every plan '
+                'rule': 'full product condition x threshold x partition filter x window {1,2} x group columns {0,1,2} x model side x LIMIT, + boundary windows 0 and 5, + the second plan of each statement on a reused QueryPlanner, + 9 arrangements of the WHERE conjuncts as AND trees, + rejected shapes (also inside a data sub-select); every plan '
                         'interpreted on every table content with <= 3 (thorough 4) rows over 2 partitions x 5 time values; distinct_nontrivial = distinct cases'}
 
     def describe_case(self, case):
